@@ -134,6 +134,11 @@ def validExt (n m : Nat) : Nat := n - m + m % 2
 
 def shiftsOf (pad : Bool) (ms : List Nat) : List Int := ms.map (fun m => fourierShift m pad)
 
+/-- `fourier_shift` of `_fourier_padding` with every branch (template larger than the target on some axis included) -/
+def shiftsOfFull (pad : Bool) : List Nat → List Nat → List Int
+  | n :: ns, m :: ms => fourierShiftFull n m pad :: shiftsOfFull pad ns ms
+  | _, _ => []
+
 /-- crop starts of the `same` mode (extent `n`) -/
 def sameCrops (pad : Bool) : List Nat → List Nat → List Int
   | n :: ns, m :: ms => cropStart (convLen n m pad) n :: sameCrops pad ns ms
